@@ -199,10 +199,11 @@ def c19_4(ctx, r):
         args = [ctx.src(x) for x in s2.node.args]
         # the row written is the Result constructed in this function (role, not spelling)
         okres = False
-        if len(s2.node.args) >= 2 and isinstance(s2.node.args[1], ast.Name):
+        if len(s2.node.args) >= 2:
+            from ..lib import is_value_of
+
             for n9 in ctx.nodes_of(cp, s2.node):
-                ud9 = ctx.rd(cp).unique_def(n9, s2.node.args[1].id)
-                okres = ud9 is not None and isinstance(ud9[1], ast.Call) and ud9[1] is s.node
+                okres = is_value_of(ctx, cp, s2.node.args[1], n9, s.node)
         r.check(args[:1] == ["self._output"] and okres and kw2.get("batch_id") == "self._batch_id", "the row goes to this batch's node file of this output directory", key_of(cp, "append target"), s2.loc, f"append({args}, {kw2})")
     # _hpc_job_id <- constructor <- intf.get_current_job_id()
     init = ctx.fn(f"{ACC}.__init__", "C19.4")
